@@ -28,6 +28,9 @@ func genC14(seed uint64, tier string) *Case {
 	if g.Bool(0.3) {
 		c.P["prefill"] = int64(1 + g.Intn(80)) // bytes left below the compaction threshold
 	}
+	if g.Bool(0.3) {
+		c.P["base"] = int64(1 + g.Intn(3))
+	}
 	n := 6 + g.Intn(30)
 	if tier == "thorough" {
 		n = 6 + g.Intn(90)
@@ -124,8 +127,15 @@ func execC14(r *Run) {
 		}
 		return m
 	}
+	// all Lamport times of the history sit on a base: small, beyond 32 bits, beyond 63 bits, or
+	// near the end of the 64-bit range (the snapshot's clock lines are decimal text)
+	base := []uint64{0, 1 << 32, 1 << 63, ^uint64(0) - 4096}[int(r.C.P["base"])%4]
 	for idx, s := range r.C.Steps {
 		r.curStep = idx
+		switch s.Op {
+		case "ev", "q", "peerev":
+			s.U += base
+		}
 		switch s.Op {
 		case "ev":
 			name := fmt.Sprintf("e%d", s.K)
